@@ -463,6 +463,24 @@ func (a *c19g) appliers(pk *packages.Package) {
 	if nAppliers == 0 {
 		c.Undecided("C19-G3", "appliers/"+dmlRelOfPkg(pk.PkgPath), 0, "no function applying the explicit/derived update expressions found")
 	}
+	// who-may-read: an executor that takes the expressions of the container through any other
+	// []Expression-returning method (the unsplit list) applies them without the explicit|derived protocol
+	a.c.P.EachFuncDecl([]string{dmlRelOfPkg(pk.PkgPath)}, func(_ *packages.Package, fd *ast.FuncDecl) {
+		for _, call := range dmlCallsIn(fd.Body, true) {
+			fn := Callee(info, call)
+			if fn == nil {
+				continue
+			}
+			fn = fn.Origin()
+			sig, _ := fn.Type().(*types.Signature)
+			if sig == nil || sig.Recv() == nil || dmlNamedOf(sig.Recv().Type()) != a.ueT || fn == a.accExplicit || fn == a.accDerived {
+				continue
+			}
+			if sig.Results().Len() == 1 && a.isExprSlice(sig.Results().At(0).Type()) {
+				c.Bad("C19-G3", DeclName(fd)+"/reads-unsplit-expressions", call.Pos(), fmt.Sprintf("%s reads the update expressions through %s.%s, not through the explicit/derived accessors: whatever it applies is outside the explicit-then-derived protocol", DeclName(fd), a.p.ueType, fn.Name()))
+			}
+		}
+	})
 }
 
 func (a *c19g) applier(pk *packages.Package, fd *ast.FuncDecl, apps []*c19gApp) {
